@@ -13,8 +13,67 @@ def signature(d, hist):
     return "%s:%s:%s" % (d["kind"], what, ",".join(R.features(hist)) or "-")
 
 
+def probe_phase(chk):
+    """After a behaviour, the table must accept exactly the single-row INSERTs that Relational.tla accepts (Accepts in
+    MC_Relational.tla): probes the constraint state itself (unique / primary-key index entries lost or left behind
+    by earlier statements) instead of waiting for a later statement of the history to trip over it."""
+    import random, json, vlib
+    thorough = chk.tier == "thorough"
+    cases, _, gstats = relrun.generate(chk, 3, False, True, None)
+    rng = random.Random(chk.seed)
+    cases = [c for c in cases if c["hist"][-1]["ok"] and c["hist"][-1]["op"]["k"] in ("insert", "update", "delete", "truncate", "reopen")]
+    cases = vlib.stratified_sample(cases, relrun.class_key, 6000 if thorough else 900, rng)
+    probes = [[i, a, 0] for i in (1, 2, 3) for a in (R.N, 1, 2)]
+    rend, meta = [], {}
+    cid = 0
+    for c in cases:
+        acc = {tuple(r) for r in c["accept"]}
+        for pr in probes:
+            case, marks, obs_at = R.render_case(cid, c["hist"], schema="pk_idx_b")
+            case["ops"] = case["ops"][:obs_at] + [{"k": "query", "sql": "SELECT id, a, b FROM t"},
+                                                   {"k": "exec", "sql": "INSERT INTO t VALUES (%s)" % ", ".join(R.lit(x) for x in pr)}]
+            rend.append(case)
+            meta[cid] = (c, marks, obs_at, pr, tuple(pr) in acc)
+            cid += 1
+    inp, outp = vlib.scratch() + "/probe_in.ndjson", vlib.scratch() + "/probe_out.ndjson"
+    vlib.write_ndjson(inp, rend)
+    vlib.run_vh(["sql-run", "--in", inp, "--out", outp, "--jobs", vlib.NCPU], timeout=3000)
+    st = {"probes": 0, "agree": 0, "abandoned": 0}
+    for r in vlib.read_ndjson(outp):
+        c, marks, obs_at, pr, want_ok = meta[r["id"]]
+        hist, res = c["hist"], r["res"]
+        # the history itself must have gone as the model says (results and final scan), otherwise the probe says nothing
+        okh = len(res) > obs_at + 1
+        for i, stp in enumerate(hist):
+            x = res[marks[i][0]] if marks[i][0] < len(res) else None
+            if x is None or ("ok" in x) != stp["ok"] or ("ok" in x and stp["op"]["k"] in ("insert", "update", "delete", "truncate") and x["ok"].get("n") != stp["n"]):
+                okh = False
+        if okh and R.norm_rows(res[obs_at]) != R.expected_obs(hist[-1]["rows"])["scan"]:
+            okh = False
+        if not okh:
+            st["abandoned"] += 1
+            continue
+        st["probes"] += 1
+        got_ok = "ok" in res[obs_at + 1]
+        if got_ok == want_ok:
+            st["agree"] += 1
+            continue
+        rows = hist[-1]["rows"]
+        which = "primary_key" if any(x[0] == pr[0] for x in rows) else "unique" if pr[1] != R.N and any(x[1] == pr[1] for x in rows) else "none"
+        last = hist[-1]["op"]
+        sig = "probe:%s:after_%s:%s" % ("accepts_invalid" if got_ok else "rejects_valid", last["k"] + ("(" + last.get("c", "") + ")" if last["k"] == "update" else ""), which)
+        chk.classify(sig, {"sql": relrun.describe(hist) + "; INSERT INTO t VALUES (%s)" % ", ".join(R.lit(x) for x in pr), "hist": hist,
+                           "probe": pr, "model_accepts": want_ok, "observed": json.dumps(res[obs_at + 1])[:200], "replay_args": {"schema": "pk_idx_b"}})
+    if st["probes"] == 0:
+        raise vlib.ToolError("no constraint probe could be judged")
+    chk.cov["constraint_probes"] = st
+    chk.cov["traces_validated_against_impl"] += st["probes"]
+    chk.mark("probes")
+
+
 def run(chk):
     relrun.standard(chk, relevant, signature)
+    probe_phase(chk)
 
 
 def replay(chk, path):
